@@ -7,11 +7,11 @@ from harness.refserver import Server
 from harness.props.C02 import render_py
 
 PROP = "C05"
-GEN = ["Handlers", "Wrappers"]
+GEN = ["Handlers", "Wrappers", "Aliases"]
 VO = ["Properties/C05.vo", "Extract/D_Client.vo", "Extract/D_Server.vo"]
 MODULE = "Properties.C05"
 THEOREMS = ["c05_store_partial", "c05_delete_partial", "c05_touch_partial", "c05_flush_partial", "c05_arith_partial", "c05_noreply_effect", "c05_reply_iff",
-            "c05_e2e_delete", "c05_e2e_touch", "c05_e2e_flush", "c05_e2e_arith", "c05_e2e_store", "c05_e2e_cas", "c05_e2e_set_many", "c05_e2e_delete_many", "c05_e2e_gat", "c05_e2e_gats", "c05_gat_retimes", "c05_noreply_defaults"]
+            "c05_e2e_delete", "c05_e2e_touch", "c05_e2e_flush", "c05_e2e_arith", "c05_e2e_store", "c05_e2e_cas", "c05_e2e_set_many", "c05_e2e_delete_many", "c05_e2e_gat", "c05_e2e_gats", "c05_gat_retimes", "c05_noreply_defaults", "c05_aliases"]
 DRIVER = "D_Client"
 TECHNIQUE = ("Coq proof: a specification server (in-memory map with expiry and cas versions); for every state of it the client's "
              "reading of the reply line is the documented result of what the server did; end to end on the Client model (Hoare "
@@ -272,8 +272,21 @@ def canon(v):
     return ("o", cs.canon_value(v))
 
 
+class Aliased:
+    """the same client called through its documented aliases (get_multi for get_many, ...)"""
+    MAP = {"get_many": "get_multi", "set_many": "set_multi", "delete_many": "delete_multi", "gets_many": "gets_multi"}
+
+    def __init__(self, cl):
+        self._cl = cl
+
+    def __getattr__(self, name):
+        a = self.MAP.get(name)
+        return getattr(self._cl, a if a and hasattr(self._cl, a) else name)
+
+
 def run_history(stack, c, ops):
     """-> list of (op, got, expected) for the first difference, or None"""
+    stack, _, via = stack.partition("+")
     srv = Server(now=1000)
     oracle = AbsMap(1000, c.get("prefix", b""), c.get("default_noreply", True))
     world = cs.World([], [], (), 1, srv.feed)
@@ -286,6 +299,8 @@ def run_history(stack, c, ops):
         cl = PooledClient(server, max_pool_size=2, **kw)
     else:
         cl = HashClient([server], **kw)
+    if via == "aliases":
+        cl = Aliased(cl)
     for i, op in enumerate(ops):
         if op[0] == "tick":
             srv.now += op[1]
@@ -410,8 +425,10 @@ def search(ctx):
     for i in range(nt + (400 if ctx.quick else 6000)):
         c = cfgs[i % 4]
         ops = targeted[i] if i < nt else random_history(rng, rng.randrange(3, 14))
-        for stack in ("Client", "PooledClient", "HashClient"):
+        for stack in ("Client", "PooledClient", "HashClient", "Client+aliases", "PooledClient+aliases", "HashClient+aliases"):
             if stack != "Client" and i % 4 and i >= nt:
+                continue
+            if "+" in stack and not any(o[0] in (1, 7, 8, 10) for o in ops):
                 continue
             n += 1
             r = run_history(stack, c, ops)
